@@ -226,6 +226,9 @@ def run_task(task: dict) -> dict:
             outcomes = core.Stats()
             with core.wall_backstop(300):
                 for ci in range(n_cases):
+                    if bad_here >= 40:
+                        stats.inc("instances_cut_short_after_40_violations")
+                        break
                     if random_mode:
                         data = rng.randbytes(rng.choice((0, 1, 2, 3, 5, 8, 13, 21, 34, 55, 96)))
                         ops = [("random", len(data))]
